@@ -20,7 +20,8 @@ RULE = ('Generated PortfolioConstructionModel calls on a real broker with stub q
         'holdings equal the non-zero targets; unweighted held assets end at zero; the recorded allocation row has '
         'Date == dt and exactly the keys S with the expected weights. Non-trivial = some held asset is outside the '
         'universe or unweighted (must be liquidated) and some weighted asset is not held (long/short variant: a '
-        'short position too).')
+        'short position too).'
+        " Round-10 reach: the equal-weight optimiser also without an alpha model (equal weight over the universe's members); a third of the cases put a user risk model between alpha model and optimiser (pass-through, halve, keep the first asset, or veto everything with an empty dictionary).")
 ASSUMPTIONS = [
     'target quantities are taken from a second call of the real sizer (sizing is C10/C11\'s subject)',
     'every asset in the pool has a quote; 7-asset pool; up to 4 successive rebalances',
@@ -49,6 +50,47 @@ class SwitchUniverse(object):
         return self.inner.get_assets(dt)
 
 
+class RiskStub(object):
+    """User-supplied risk model: passes the weights on, halves them, keeps only the first named asset, or vetoes
+    every position (an empty dictionary); the harness sets the mode before each rebalance."""
+
+    def __init__(self):
+        self.mode = None
+
+    def __call__(self, dt, weights):
+        return apply_risk(self.mode, weights)
+
+
+def apply_risk(mode, weights):
+    if mode == 'halve':
+        return {a: v / 2.0 for a, v in weights.items()}
+    if mode == 'first':
+        return {a: v for a, v in list(weights.items())[:1]}
+    if mode == 'veto':
+        return {}
+    return dict(weights)
+
+
+def build_universe(q, rb, tc):
+    uni_assets = [POOL[i] for i in rb['universe']]
+    if rb['dynamic']:
+        dates = {}
+        for i, a in enumerate(uni_assets):
+            k = rb['entry'][i % len(rb['entry'])]
+            dates[a] = None if k == 'none' else tc + pd.Timedelta(minutes={'on': 0, 'after': 1, 'before': -600}[k])
+        return q.DynamicUniverse(dates)
+    return q.StaticUniverse(uni_assets)
+
+
+def named_assets(q, rb, use_risk):
+    """The weight vector that reaches the optimiser: the alpha model's (or zeros over the universe's members when
+    there is no alpha model), after the risk model."""
+    tc = cal.ts(T0.date(), 21, 0)
+    base = ({a: 0.0 for a in build_universe(q, rb, tc).get_assets(tc)} if rb.get('no_alpha')
+            else {POOL[i]: v for i, v in rb['weights']})
+    return apply_risk(rb.get('risk') if use_risk else None, base)
+
+
 def next_open(t):
     d = t.date() + pd.Timedelta(days=1)
     while d.weekday() > 4:
@@ -68,7 +110,8 @@ def run_case(case):
     twin = bool(case.get('twin'))
     # an equal-weight optimiser between alpha model and sizer (only when every rebalance has an alpha model that names
     # at least one asset): the named assets share the weight equally, every other asset of the vector gets zero
-    equal = case.get('optimiser') == 'equal' and all(rb_['weights'] and not rb_.get('no_alpha') for rb_ in case['rebalances'])
+    use_risk = bool(case.get('risk_model'))
+    equal = case.get('optimiser') == 'equal' and all(named_assets(q, rb_, use_risk) for rb_ in case['rebalances'])
 
     def make_opt():
         return q.EqualWeightPortfolioOptimiser(data_handler=dh) if equal else q.FixedWeightPortfolioOptimiser(data_handler=dh)
@@ -93,20 +136,10 @@ def run_case(case):
     for rb in case['rebalances']:
         tc = cal.ts(t.date(), 21, 0)
         b.update(tc)
-        uni_assets = [POOL[i] for i in rb['universe']]
-        if rb['dynamic']:
-            dates = {}
-            for i, a in enumerate(uni_assets):
-                k = rb['entry'][i % len(rb['entry'])]
-                dates[a] = None if k == 'none' else tc + pd.Timedelta(minutes={'on': 0, 'after': 1, 'before': -600}[k])
-            uni = q.DynamicUniverse(dates)
-        else:
-            uni = q.StaticUniverse(uni_assets)
-        w = {POOL[i]: v for i, v in rb['weights']}
-        w_alpha = dict(w)
-        if equal:
-            w = {a_: 1.0 / len(w) for a_ in w}          # what the optimiser makes of the alpha model's output
+        uni = build_universe(q, rb, tc)
+        w_alpha = {POOL[i]: v for i, v in rb['weights']}
         no_alpha = rb.get('no_alpha', False)
+        risk_mode = rb.get('risk') if use_risk else None
         reuse = case.get('reuse', False) and not no_alpha
         if reuse and shared:
             # one construction model, sizer and optimiser serve every rebalance of the case, as in a session
@@ -121,9 +154,12 @@ def run_case(case):
                          q.LongShortLeveragedOrderSizer(b, 'p', dh, gross_leverage=arg))
             alpha_obj, uni_obj = MutableAlpha(), SwitchUniverse()
             pcm = q.PortfolioConstructionModel(b, 'p', uni_obj, sizer, make_opt(),
-                                               alpha_model=None if no_alpha else alpha_obj, data_handler=dh)
+                                               alpha_model=None if no_alpha else alpha_obj,
+                                               risk_model=RiskStub() if use_risk else None, data_handler=dh)
             if reuse:
                 shared = (pcm, sizer, alpha_obj, uni_obj)
+        if use_risk:
+            pcm.risk_model.mode = risk_mode
         alpha_obj.weights = dict(w_alpha)
         uni_obj.inner = uni
         if twin and (twin_objs is None or twin_objs[4] is not pcm):          # rebuilt whenever the model of 'p' is
@@ -136,15 +172,21 @@ def run_case(case):
                           q.LongShortLeveragedOrderSizer(b, 'twin', dh, gross_leverage=arg2))
             a2, u2 = MutableAlpha(), SwitchUniverse()
             pcm2 = q.PortfolioConstructionModel(b, 'twin', u2, sizer2, make_opt(),
-                                                alpha_model=None if no_alpha else a2, data_handler=dh)
+                                                alpha_model=None if no_alpha else a2,
+                                                risk_model=RiskStub() if use_risk else None, data_handler=dh)
             twin_objs = (pcm2, sizer2, a2, u2, pcm)
         if twin:
+            if use_risk:
+                twin_objs[0].risk_model.mode = risk_mode
             twin_objs[2].weights = dict(w_alpha)
             twin_objs[3].inner = uni
         held = {a: d['quantity'] for a, d in b.get_portfolio_as_dict('p').items()}
         in_uni = list(uni.get_assets(tc))
-        if no_alpha:
-            w = {a: 0.0 for a in in_uni}
+        # what reaches the sizer: the alpha model's weights (zeros over the universe without one), after the risk
+        # model, after the optimiser (equal weight: the named assets share the weight equally)
+        w = apply_risk(risk_mode, {a: 0.0 for a in in_uni} if no_alpha else w_alpha)
+        if equal:
+            w = {a_: 1.0 / len(w) for a_ in w}
         S = set(in_uni) | set(held) | set(w)
         # same key order as the construction model uses (sorted universe u held, then the alpha's further keys): the
         # sizers add the weights up in dict order, and a float sum can differ in the last bit between orders
@@ -229,6 +271,10 @@ def run_case(case):
             cls.add('order_qty_1')
         if no_alpha:
             cls.add('no_alpha_model')
+            if equal:
+                cls.add('no_alpha_model_equal_weight_over_the_universe')
+        if risk_mode:
+            cls.add('risk_model_' + risk_mode)
         if rb['sizer_arg'] == 'default':
             cls.add('default_sizer')
         if reuse and len(case['rebalances']) > 1:
@@ -285,13 +331,15 @@ def cases(draw):
             'entry': draw(st.lists(st.sampled_from(['on', 'on', 'before', 'after', 'none']), min_size=1, max_size=3)),
             'weights': weights, 'sizer_arg': arg,
             'no_alpha': draw(st.sampled_from([False] * 9 + [True])),
+            'risk': draw(st.sampled_from([None, None, 'halve', 'first', 'veto'])),
             'moves': [draw(st.sampled_from([1.0, 0.9, 1.1, 1.03, 0.97])) for _ in POOL],
         })
     return {'long_only': long_only, 'cash': cash, 'prices': prices, 'holdings': holdings,
             'fee': draw(st.sampled_from([None, None, [0.001, 0.0], [0.001, 0.005]])), 'rebalances': rebs,
             'reuse': draw(st.sampled_from([True, True, False])), 'other_portfolio': draw(st.booleans()),
             'twin': draw(st.sampled_from([False, False, True])),
-            'optimiser': draw(st.sampled_from(['fixed', 'fixed', 'equal']))}
+            'optimiser': draw(st.sampled_from(['fixed', 'fixed', 'equal'])),
+            'risk_model': draw(st.sampled_from([False, False, True]))}
 
 
 PARTS = [
